@@ -673,7 +673,12 @@ def rule_HI(run: Run) -> RuleResult:
                 n += 1
                 res.add(f"{q}:{s.func.attr} on .handlers", False, mm.relpath, s.lineno, ast.unparse(s)[:80], nec)
     if n == 0:
-        raise AnalysisError("Runtime.handlers is never assigned (anchor vanished)")
+        hp_ = rt.find_method("handlers")
+        if hp_ is not None and any(ast.unparse(d_) == "property" for d_ in hp_[1].decorator_list):
+            # the table became a computed property: nothing assigns it, and what handle() builds from is judged below as before
+            res.notes.append("Runtime.handlers is a property: no assignment to judge")
+        else:
+            raise AnalysisError("Runtime.handlers is never assigned (anchor vanished)")
     # the current runtime is looked up at the moment a request is issued or a runtime is derived — by Request.run and the
     # module-level handle(), nowhere else: code that captures it (in a closure, on an object) serves later requests from a scope
     # that may have ended, and code that enters it interleaves with the caller's own with-blocks
@@ -694,11 +699,25 @@ def rule_HI(run: Run) -> RuleResult:
     for mm, cls, fn, q in iter_functions(run.repo):
         if mm.name.startswith("labrea.mypy"):
             continue
-        for w in astu.walk_no_nested(fn):
-            if not isinstance(w, (ast.With, ast.AsyncWith)):
-                continue
-            for it in w.items:
-                ce = it.context_expr
+        # (a runtime made first and entered later — ``silenced = disabled(); …; with silenced:`` also from a nested function — or
+        # entered through an exit stack — ``stack.enter_context(handle(…))`` — is entered by the library all the same)
+        made_here = {}
+        for st_ in ast.walk(fn):
+            if isinstance(st_, ast.Assign) and len(st_.targets) == 1 and isinstance(st_.targets[0], ast.Name) and isinstance(st_.value, ast.Call):
+                made_here.setdefault(st_.targets[0].id, []).append(st_.value)
+        entered = []
+        for w in ast.walk(fn):
+            if isinstance(w, (ast.With, ast.AsyncWith)):
+                for it in w.items:
+                    ce = it.context_expr
+                    if isinstance(ce, ast.Name) and len(made_here.get(ce.id, [])) == 1 and ce.id not in {a_.arg for a_ in fn.args.posonlyargs + fn.args.args + fn.args.kwonlyargs}:
+                        entered.append((w, made_here[ce.id][0]))
+                    elif w in list(astu.walk_no_nested(fn)):
+                        entered.append((w, ce))
+            elif isinstance(w, ast.Call) and isinstance(w.func, ast.Attribute) and w.func.attr == "enter_context" and len(w.args) == 1:
+                entered.append((w, w.args[0]))
+        for w, ce in entered:
+            if True:
                 f0 = ce.func if isinstance(ce, ast.Call) else ce
                 r_ = astu.resolve_in_function(run.repo, mm, fn, f0) if isinstance(f0, (ast.Name, ast.Attribute)) else None
                 tgt = None
